@@ -38,6 +38,13 @@ def simple_block(name, natoms, nrexcl=1, multi=False, ifdef=True, extra_excl=Fal
             inters.append(("angles", (0, 1, 2), ["10", "130", "55"], {}))
     if extra_excl and natoms >= 3:
         inters.append(("exclusions", (0, 2), [], {}))
+    if natoms >= 4:
+        inters.append(("dihedrals", (0, 1, 2, 3), ["9", "0", "1.5", "1"], {}))
+        if multi:
+            inters.append(("dihedrals", (0, 1, 2, 3), ["9", "180", "2.5", "2"], {}))
+            inters.append(("dihedrals", (0, 1, 2, 3), ["9", "0", "3.5", "3"], {}))
+        inters.append(("pairs", (0, 3), ["1"], {}))
+        inters.append(("constraints", (1, 3), ["1", "0.44"], {"ifndef": "FLEX"}))
     return BlockSpec(name, atoms, inters, nrexcl)
 
 
